@@ -87,10 +87,17 @@ def oracle(spec, o, m):
                  "fitting a building of the family raised %s" % o["exception"])]
     fails = []
 
+    # cause attribution through the hook: a sub-model whose stored (read-back) curve differs from the curve the
+    # optimiser scored by more than 1 % of mean usage
+    rgaps = [h["readback_gap"] for part in ("initial", "final") for h in o[part].values() if h.get("readback_gap") is not None]
+    readback_broken = bool(rgaps) and max(rgaps) > 0.01 * m["mean_in"]
+
     def cls(failure):
         s = dict(sig0, failure=failure)
         if spec["kind"] == "billing" and failure.startswith("nrmse") and spec["shape"] != "flat":
             s["finding_class"] = "billing-dilution"
+        elif readback_broken:
+            s["finding_class"] = "readback-differs-from-scored"
         return s
     if not m["nrmse_in_ok"]:
         fails.append((cls("nrmse_baseline"), "NRMSE against the generating curve on the baseline = %.4f > 0.05" % m["nrmse_in"]))
@@ -156,6 +163,21 @@ def coq_box_case(h):
     return "(%s, %d%%nat, %s, %s, %s)" % (COQ_KEY[h["key"]], h["nmin"], coq_floats(h["T"]), coq_floats(h["obs"]), coq_rows(h["bnds"]))
 
 
+def param_gap(spec, x, tlo, thi):
+    """Model/Recovery.v param_gap (with free_bp) on the implementation's own 7-vector"""
+    hbp, hbeta, hk, cbp, cbeta, ck, icpt = x
+    bph = spec["bph"] if spec["bh"] != 0 else hbp - hk
+    bpc = spec["bpc"] if spec["bc"] != 0 else cbp + ck
+    pos = lambda a: a if a > 0 else 0.0
+    heat = abs(spec["bh"] - hbeta) * pos(bph - tlo) + hbeta * abs(bph - (hbp - hk)) + hbeta * hk
+    cool = abs(spec["bc"] - cbeta) * pos(thi - bpc) + cbeta * abs(bpc - (cbp + ck)) + cbeta * ck
+    return abs(icpt - spec["base"]) + heat + cool
+
+
+def rgaps_of(o):
+    return [h["readback_gap"] for part in ("initial", "final") for h in o[part].values() if h.get("readback_gap") is not None]
+
+
 def gen_raw(spec):
     if spec["shape"] == "both":
         return [spec["bph"], spec["bh"], spec["bpc"], spec["bc"], spec["base"]]
@@ -179,12 +201,14 @@ def make_specs(run):
     rng = run.rng
     if run.quick():
         zones = rng.sample(L.ZONES, len(L.ZONES))
-        # one building per shape first, then random ones; noise kinds rotate
-        plan = [("daily", sh) for sh in L.SHAPES] + [("daily", None)] * 5 + [("billing", "flat"), ("billing", None)]
+        # the fragile corners of the family, one random building per shape, two billing meters
+        specs += L.sentinel_specs(rng, "daily")
+        plan = [("daily", sh) for sh in L.SHAPES] + [("billing", "flat"), ("billing", None)]
         for k, (kind, sh) in enumerate(plan):
             specs.append(L.gen_spec(rng, kind, shape=sh, tz=zones[k % len(zones)], noise=L.NOISE_KINDS[k % 3]))
     else:
         n_daily = int(os.environ.get("C15_THOROUGH_DAILY", "1"))
+        specs += L.sentinel_specs(rng, "daily")
         specs += L.grid_specs(rng, "daily", per_cell=n_daily)
         for _ in range(40):
             specs.append(L.gen_spec(rng, "daily"))
@@ -240,7 +264,7 @@ def main():
     ex.shutdown()
     run.log("fits done")
 
-    fit_cases, final_cases, initial_cases, inbox_cases = [], [], [], []
+    fit_cases, final_cases, initial_cases, inbox_cases, gap_cases = [], [], [], [], []
     cert = []
     for spec, o in zip(specs, obs):
         key = vlib.sha(spec)
@@ -284,10 +308,19 @@ def main():
             if h["bnds"] is not None and h["key"] is not None and len(h["bnds"]) == 7:
                 initial_cases.append(("(%s, %s, %s)" % (coq_floats(h["T"]), coq_floats(h["obs"]), coq_rows(h["bnds"])), spec, comp, h))
         run.dist("generator_in_final_box", "n/a (other key or split)" if gin is None else str(gin))
+        # distance in parameter space -> bound on every weather year between tlo and thi (C15_out_of_sample_from_parameters)
+        allT = o["base"]["T"] + o["year2"]["T"]
+        tlo, thi = float(min(allT)) - 10.0, float(max(allT)) + 10.0
+        keys = list(o["submodels"].keys())
+        gap = max(param_gap(spec, o["xeff"][k], tlo, thi) for k in keys)
+        gap_cases.append(("(%s, %s, %s, %s, %s)" % (coq_building(spec), coq_list([coq_sub(o["submodels"][k]) for k in keys]),
+                                                     fhex(tlo), fhex(thi), fhex(gap)), spec, None, {"gap": gap, "tlo": tlo, "thi": thi, "xeff": o["xeff"]}))
         c = {"model": spec["kind"], "shape": spec["shape"], "nrmse_in": m["nrmse_in"], "nrmse_out": m["nrmse_out"],
              "rmse_fit_vs_truth": m["rmse_fg"], "rmse_noise": m["rmse_yg"], "s_over_n": m["s_over_n"],
              "sqrt_s_over_n_nrmse": float(np.sqrt(m["s_over_n"])) / m["mean_in"],
              "certificate_bound_nrmse": m["cert_bound_nrmse"], "generator_in_final_box": gin,
+             "max_readback_gap_over_mean": (max(rgaps_of(o)) / m["mean_in"]) if rgaps_of(o) else None,
+             "param_gap": gap, "param_gap_over_base_load": gap / spec["base"], "param_gap_range_F": [tlo, thi],
              "fit_s": o["fit_s"], "types": types}
         cert.append(c)
         if spec["kind"] == "daily":
@@ -302,7 +335,7 @@ def main():
     for t, spec, o, m in fit_cases:
         by_spec.setdefault(vlib.sha(spec), []).append(("(AFit %s)" % t, "fit", (spec, o, m)))
     for stream, cases, ctor in (("final_box", final_cases, "AFinalBox"), ("initial_box", initial_cases, "AInitialBox"),
-                                ("gen_in_box", inbox_cases, "AGenInBox")):
+                                ("gen_in_box", inbox_cases, "AGenInBox"), ("param_gap", gap_cases, "AGap")):
         for t, spec, comp, h in cases:
             by_spec.setdefault(vlib.sha(spec), []).append(("(%s %s)" % (ctor, t), stream, (spec, comp, h)))
     for k in by_spec:
@@ -327,6 +360,10 @@ def main():
                                       "model": expl})
         else:
             spec, comp, h = payload
+            if stream == "param_gap":
+                run.corr_failures.append({"stream": stream, "case": {"spec": spec}, "impl": h,
+                                          "model": "Model/RecoveryRun.v fit_gap differs from the gap computed on the implementation's 7-vectors"})
+                continue
             run.corr_failures.append({"stream": stream, "case": {"spec": spec, "component": comp},
                                       "impl": {"key": h["key"], "coef_id": h["coef_id"], "bnds": h["bnds"], "nmin": h["nmin"],
                                                "T_sorted_ends": sorted(h["T"])[:12] + sorted(h["T"])[-12:],
@@ -347,6 +384,14 @@ def main():
             "daily_max_nrmse_second_year": max([0.0] + [c["nrmse_out"] for c in daily]),
             "daily_max_certificate_bound_nrmse": max([0.0] + [c["certificate_bound_nrmse"] for c in daily]),
             "generator_in_final_box": {str(k): sum(1 for c in cert if c["generator_in_final_box"] is k) for k in (True, False, None)},
+            "out_of_sample_from_parameters": {
+                "what": "C15_out_of_sample_from_parameters: a fitted model whose param_gap (sup-norm distance from the generating "
+                        "curve over [coldest day - 10 F, hottest day + 10 F], evaluated from the stored parameters) is <= 5 % of "
+                        "the base load satisfies the NRMSE half of the statement on EVERY weather year inside that range",
+                "daily_fits_with_gap_below_5pct_of_base_load": sum(1 for c in daily if c["param_gap_over_base_load"] <= 0.05),
+                "daily_fits": len(daily),
+                "daily_max_gap_over_base_load": max([0.0] + [c["param_gap_over_base_load"] for c in daily]),
+            },
             "rows": cert[:400],
         }
     run.finish()
